@@ -193,6 +193,22 @@ func (r *Run) Finish() int {
 		}
 	}
 	status := 0
+	// known_findings.json is authoritative: failing cases counted under a class that the file does not
+	// list as open for this property are violations (the class was repaired, or never recorded)
+	for id, n := range r.KnownHits {
+		open := false
+		if known != nil {
+			for _, f := range known.Findings {
+				if f.ID == id && f.Property == r.Property && f.Status == "open" {
+					open = true
+				}
+			}
+		}
+		if !open {
+			r.Violations = append(r.Violations, Violation{Kind: "counterexample",
+				What: fmt.Sprintf("%d failing cases fell into the class of %s, which known_findings.json does not list as an open finding of %s", n, id, r.Property)})
+		}
+	}
 	// concrete violations first
 	concrete := 0
 	for _, v := range r.Violations {
